@@ -5,11 +5,14 @@ CONSTANTS
   BugSharedInstance = FALSE
   BugCloneShares = FALSE
   BugShCoupled = FALSE
+  BugRowsFromSeed = FALSE
+  ChildInit = FALSE
   Focus = "all"
   Emit = TRUE
 INVARIANT Reproducible
 INVARIANT SeedsDiffer
 INVARIANT NoDeviateUsedTwice
+INVARIANT ObjectNeverReusesADeviate
 INVARIANT GlobalUntouched
 INVARIANT EmitBehaviour
 CHECK_DEADLOCK FALSE
